@@ -90,7 +90,7 @@ def readers():
     rd["constructed"] = ("constructed",
                          lambda s: (lambda t: ((t[0], t[1]), t[2]))(der.remove_constructed(s)),
                          _ref_constructed, lambda v: R.enc_ctx(v[0], v[1]), [0xA0, 0xA1, 0xBE])
-    for k in (0, 3, 7, None, _legacy_sentinel):
+    for k in (0, 3, 7, 8, 255, None, _legacy_sentinel):      # 8 and 255: an expectation no canonical BIT STRING can meet - every input must be refused
         nm = "bitstring_%s" % ("legacy" if k is _legacy_sentinel else k)
         rd[nm] = ("bitstring", _lib_bitstring(k), _ref_bitstring(k), _reenc_bitstring(k), [0x03])
     return rd
@@ -267,6 +267,12 @@ def run(ctx, name, kind, **kw):
                 continue
             for v in range(lo, hi):
                 judge(ctx, nm, group, libf, reff, reenc, bytes([t]) + v.to_bytes(n - 1, "big"), stats)
+        if group == "bitstring" and n == 3:
+            # BIT STRINGs with one and two content octets and EVERY value of the unused-bits octet (4- and 5-byte inputs, structured)
+            for u in range(256):
+                for tail in (b"\x00", b"\x80", b"\xff", b"\x01", b"\x00\x00", b"\xaa\x00", b"\x55\xfe"):
+                    judge(ctx, nm, group, libf, reff, reenc, bytes([0x03, 1 + len(tail), u]) + tail, stats)
+                    judge(ctx, nm, group, libf, reff, reenc, bytes([0x03, 1 + len(tail), u]) + tail + b"\x02", stats)
         flush(ctx, stats)
     elif kind == "lenN_length":
         for v in range(kw["part"] * 256 ** 3 // kw["parts"], (kw["part"] + 1) * 256 ** 3 // kw["parts"]):
